@@ -22,7 +22,7 @@ def _env(n, with_assumption=True):
         vs = [z3.Real("v%d" % i) for i in range(n)]
         for a, b in zip(ts, ts[1:]):
             it.pc.append(a < b)
-        fields = {"t": list(ts), "vals": list(vs), "units": "u", "assumption": z3.Real("assumption"), "sigma": None, "_sampled": False}
+        fields = {"t": list(ts), "vals": list(vs), "units": "u", "assumption": z3.Real("assumption") if with_assumption else None, "sigma": None, "_sampled": False}
         return {"self": PyObjV("TimeSeries", source.load("utils"), fields), "old_t": list(ts), "old_v": list(vs), "old_assumption": fields["assumption"]}
 
     return make
@@ -254,3 +254,23 @@ for _k, _c in CONTRACTS.items():
     _c["n"] = int(_k.split("#n")[1].split("_")[0])
     _c["fn"] = _k.split(".")[-1].split("#")[0]
     _c["op"] = "insert" if ".insert#" in _k else ("remove" if ".remove#" in _k else ("sample" if ".sample#" in _k else ("remove_range" if ".remove_" in _k else ("get" if ".get#" in _k else "interpolate"))))
+
+
+# ---- copies (C08 "a model / input that is deep-copied behaves the same", C16): __deepcopy__ / copy give a series with the same visible data
+# whose time and value lists are NEW lists (changing the copy does not change the original); has_data / has_time_data read as documented
+for _n in (0, 2):
+    for _meth in ("__deepcopy__", "copy"):
+        CONTRACTS["utils:TimeSeries.%s#n%d" % (_meth, _n)] = dict(
+            schema=schema, make_env=_env(_n), ghost_params=({"memodict": "const:{}"} if _meth == "__deepcopy__" else {}),
+            ensures=[
+                ("C08+C16.the_copy_has_the_same_visible_data", "result.t == old_t and result.vals == old_v and result.assumption == old_assumption and result.units == self.units and result.sigma == self.sigma and result._sampled == self._sampled"),
+                ("C08+C16.the_copy_shares_no_list_with_the_original", "result is not self and result.t is not self.t and result.vals is not self.vals"),
+                ("C08.the_original_is_untouched", "self.t == old_t and self.vals == old_v and self.assumption == old_assumption"),
+            ],
+            defined_props=["C08", "C16"])
+    CONTRACTS["utils:TimeSeries.has_time_data#n%d" % _n] = dict(
+        schema=schema, make_env=_env(_n), ensures=[("C16.time_data_means_at_least_one_entered_year", "result == %s" % (_n > 0))], defined_props=["C16"])
+    for _with in (True, False):
+        CONTRACTS["utils:TimeSeries.has_data#n%d_%s" % (_n, "with_assumption" if _with else "without_assumption")] = dict(
+            schema=schema, make_env=_env(_n, with_assumption=_with),
+            ensures=[("C16.data_means_an_assumption_or_an_entered_year", "result == %s" % (_with or _n > 0))], defined_props=["C16"])
